@@ -15,7 +15,13 @@ Part C (listing): `_list_items_paginated`, `_get_folders_from_url` (loop
 invariants over an abstract page chain), `_walk_drive_items` (modular
 recursion), `_walk_and_filter`, `list_all_files`, `list_files_filtered`.
 Part D (caches): `_access_token` / `_site_id` are assigned only after a
-successful response (dataflow obligations).
+successful response (dataflow obligations + "unchanged on every raise" clauses).
+
+Findings on the pristine tree (both replayed natively, repair in proposed_fixes/C18.diff):
+* F17  `_parse_iso_datetime` drops the fractional seconds, so bounds are decided at whole seconds
+  (created 10:30:00.5Z, created_after 10:30:00.25 -> excluded; created_before 10:30:00.25 -> included).
+* F25  a token response that is not valid UTF-8 escapes `fetch_access_token` as UnicodeDecodeError (outside the
+  client family; the Graph requests already decode with errors="replace").
 """
 import z3
 
@@ -1992,3 +1998,15 @@ EXECUTOR_KW = {f"{CLIENT}::_parse_iso_datetime": {"feas_timeout_ms": 200},
                f"{CLIENT}::SharePointRestClient._walk_and_filter": {"feas_timeout_ms": 150},
                f"{CLIENT}::SharePointRestClient.list_files_filtered": {"feas_timeout_ms": 150},
                f"{CLIENT}::SharePointRestClient.list_all_files": {"feas_timeout_ms": 150}}
+
+MANIFEST_ENTRY = dict(
+    text="Deductive proof over the real AST of sharepoint_io/client.py: FileFilter.matches equals the statement's predicate "
+         "(instants as reals, symbolic extension / pattern lists); _send closes every response it obtained on every path and maps "
+         "HTTPError/URLError/non-2xx to the request error with status and url; paginated listing, folder listing and the recursive "
+         "walk yield exactly the files of an abstract page chain / folder tree in order (loop invariants, modular recursion); "
+         "caches are written only after a successful checked response; only the client's exception family escapes.",
+    note="Assumed: ISO-8601 semantics + fromisoformat exact on six-digit fractions, deterministic finite acyclic server (T-DET/T-FIN/"
+         "TREE-FINITE), GRAPH-SHAPE, transport raises only HTTPError/URLError (others escape unchanged, responses closed), URL formats "
+         "opaque, eager generator view; pyvc engine, z3.",
+    technique="contract-based deductive verification: AST->VC generation over the real source, string/sequence/recfun VCs in z3",
+    design="DESIGN.md §3 C18")
